@@ -8,6 +8,7 @@ import (
 	"io"
 	"os"
 	"runtime/pprof"
+	"sort"
 	"strconv"
 	"strings"
 )
@@ -368,13 +369,14 @@ func runScript(env *Zlisp, fname string, cfg *ZlispConfig) {
 
 	_, err = env.Run()
 	if cfg.CountFuncCalls {
+		// in sorted order, so the report is the same on every run
 		fmt.Println("Pre:")
-		for name, count := range precounts {
-			fmt.Printf("\t%s: %d\n", name, count)
+		for _, name := range sortedCountNames(precounts) {
+			fmt.Printf("\t%s: %d\n", name, precounts[name])
 		}
 		fmt.Println("Post:")
-		for name, count := range postcounts {
-			fmt.Printf("\t%s: %d\n", name, count)
+		for _, name := range sortedCountNames(postcounts) {
+			fmt.Printf("\t%s: %d\n", name, postcounts[name])
 		}
 	}
 	if err != nil {
@@ -520,4 +522,13 @@ func ReplMain(cfg *ZlispConfig) {
 
 func (env *Zlisp) ReplLineInfixWrap(line string) string {
 	return "{" + line + "}"
+}
+
+func sortedCountNames(m map[string]int) []string {
+	names := make([]string, 0, len(m))
+	for name := range m {
+		names = append(names, name)
+	}
+	sort.Strings(names)
+	return names
 }
